@@ -105,6 +105,11 @@ func (t *brokerPublishTransactionBase) resend(pktx interface{}) error {
 	t.log.Debug("Resend.")
 	switch pkt := pktx.(type) {
 	case snPkts.Packet:
+		// The packet waits in the buffer of a sleeping client: it has not
+		// been transmitted yet, there is nothing to retransmit.
+		if t.handler.state.Get() == util.StateAsleep {
+			return transactions.ErrRetryPostponed
+		}
 		// Set DUP if applicable.
 		if dupPkt, ok := pkt.(snPkts.PacketWithDUP); ok {
 			dupPkt.SetDUP(true)
